@@ -367,6 +367,78 @@ func runProperty(repo, specs, prop, tier, out string) int {
 		"gen_secs": genSecs, "solve_wall_secs": solveSecs, "solver_cpu_secs": solver.TotalSecs, "answers": solver.Counts,
 		"path_instances": len(allObls),
 	}
+	// thorough tier: bounded cross-check that does not go through the loop invariants or the loop havoc. Every function
+	// under contract is run again with its loops unrolled twice; a postcondition or safety obligation of an unrolled
+	// path for which a solver finds a model is replayed on the real code, and only a failure of the real code is
+	// reported. (The loop-cut proof and the unrolled search share the memory model but not the treatment of loops, which
+	// is where the machinery's own soundness bugs were found.)
+	if tier == "thorough" && os.Getenv("VERIF_NO_REPLAY") == "" {
+		bcStart := time.Now()
+		nFn, nObls, nSat, nRepro := 0, 0, 0, 0
+		for _, fr := range runs {
+			if fr.x.FC == nil || fr.x.FC.Trusted || time.Since(bcStart) > 15*time.Minute {
+				continue
+			}
+			if len(fr.x.loops) == 0 {
+				continue
+			}
+			hasLoop := false
+			for _, m := range fr.x.loops {
+				if len(m) > 0 {
+					hasLoop = true
+				}
+			}
+			if !hasLoop {
+				continue
+			}
+			nFn++
+			x2 := NewExec(p, fr.x.Fn)
+			x2.Unroll = 2
+			x2.MaxStates = 1500
+			func() {
+				defer func() { recover() }()
+				x2.Run()
+			}()
+			var cands []*Obligation
+			for _, o := range x2.Obls {
+				if o.Smoke || o.Goal == "true" {
+					continue
+				}
+				if o.Kind == "post" || o.Kind == "nil" || o.Kind == "bounds" || o.Kind == "typeassert" || o.Kind == "hashable" || o.Kind == "div0" || o.Kind == "nilmap" {
+					cands = append(cands, o)
+				}
+			}
+			nObls += len(cands)
+			solver.SolveAll(cands, 16)
+			tried := 0
+			for _, o := range cands {
+				if o.Status != "sat" || tried >= 3 {
+					continue
+				}
+				nSat++
+				tried++
+				rf := filepath.Join(replayDir, prop+"-bounded-"+sanitize(o.Name)+".json")
+				ok, info := tryReplayOne(p, o, rf, repo)
+				if m, isMap := info.(map[string]any); isMap && ok {
+					if all, _ := m["all_preconditions_checked_at_run_time"].(bool); !all {
+						ok = false // the constructed input may not meet a precondition that could not be checked
+					}
+				}
+				if ok {
+					nRepro++
+					violations++
+					rep := map[string]any{"property": prop, "obligation": o.Name + " (loops unrolled twice)", "status": "sat", "clause": o.Clause, "pos": o.Pos, "replay": info}
+					if m, isMap := info.(map[string]any); isMap {
+						rep["go_test"] = m["go_test"]
+					}
+					writeJSON(rf, rep)
+					fmt.Printf("VIOLATION property=%s replay=%s obligation=%s status=sat-on-unrolled-path\n", prop, rf, o.Name)
+				}
+			}
+		}
+		stats["bounded_crosscheck"] = map[string]any{"functions_with_loops": nFn, "unroll": 2, "obligations": nObls, "models_found": nSat, "reproduced_on_real_code": nRepro,
+			"secs": time.Since(bcStart).Seconds(), "note": "bounded stand-in, never counted as proved: searches for failing inputs independently of the loop invariants"}
+	}
 	writeEvidence(vd, prop, tier, seed, results, funcsUnder, trusted, usedC, time.Since(t0), violations, cfg, stats, knownSeen)
 	fmt.Printf("%s %s: %d named obligations, %d discharged, %d functions, %d violations, %d known findings, %.1fs\n",
 		prop, tier, nObl, nDis, len(fns), violations, len(knownSeen), time.Since(t0).Seconds())
